@@ -65,8 +65,8 @@ pub fn fx() -> Spec {
             d("[SENSe]:VOLTage:[DC]:RANGe", &[F64], R::None, false),
             d("[SENSe]:VOLTage:[DC]:RANGe?", &[], R::Int(I16), false),
             d("[SENSe]:VOLTage:A", &[I32], R::None, false),
-            d("PAY:S10", &[Str, Str, Str, Str, Str, Str, Str, Str, Str, Str], R::None, false),
-            d("PAY:B10", &[Bytes, Bytes, Bytes, Bytes, Bytes, Bytes, Bytes, Bytes, Bytes, Bytes], R::None, false),
+            d("PAY:STEN", &[Str, Str, Str, Str, Str, Str, Str, Str, Str, Str], R::None, false),
+            d("PAY:BTEN", &[Bytes, Bytes, Bytes, Bytes, Bytes, Bytes, Bytes, Bytes, Bytes, Bytes], R::None, false),
             d("PAY:MIX", &[U8, Str, Bytes, Bool, Str, Bytes, F64, Str, Bytes, I16], R::None, true),
             d("PAY:ECHO?", &[Str, Bytes], R::Tup(vec![R::Str, R::Arb]), false),
             d("MEASure:TEMPerature?", &[], R::HStr, false),
@@ -82,26 +82,22 @@ pub fn ty() -> Spec {
     use Ty::*;
     let mut decls = Vec::new();
     for t in crate::spec::ALL_TYS {
-        let name = match t {
-            Str => "STR".to_string(),
-            Bytes => "BYTES".to_string(),
-            other => other.rust().to_uppercase(),
-        };
+        let name = ty_name(t);
         decls.push(d(&format!("ARG:{}", name), &[t], R::None, false));
     }
-    decls.push(d("ARG:M0", &[], R::None, false));
-    decls.push(d("ARG:M2", &[U8, Str], R::None, false));
-    decls.push(d("ARG:M3", &[I16, F32, Bool], R::None, true));
-    decls.push(d("ARG:M5", &[U64, I8, Bytes, F64, Str], R::None, false));
-    decls.push(d("ARG:M10", &[I32, U8, Bool, Str, F32, Bytes, I64, U16, F64, Isize], R::None, false));
-    decls.push(d("ARG:U10", &[U8, U8, U8, U8, U8, U8, U8, U8, U8, U8], R::None, false));
-    decls.push(d("ARG:Q1?", &[U32], R::Int(U32), false));
-    decls.push(d("ARG:Q3?", &[Str, Bool, I64], R::Bool, true));
+    decls.push(d("ARG:MNONe", &[], R::None, false));
+    decls.push(d("ARG:MTWO", &[U8, Str], R::None, false));
+    decls.push(d("ARG:MTHRee", &[I16, F32, Bool], R::None, true));
+    decls.push(d("ARG:MFIVe", &[U64, I8, Bytes, F64, Str], R::None, false));
+    decls.push(d("ARG:MTEN", &[I32, U8, Bool, Str, F32, Bytes, I64, U16, F64, Isize], R::None, false));
+    decls.push(d("ARG:UTEN", &[U8, U8, U8, U8, U8, U8, U8, U8, U8, U8], R::None, false));
+    decls.push(d("ARG:QONE?", &[U32], R::Int(U32), false));
+    decls.push(d("ARG:QTHRee?", &[Str, Bool, I64], R::Bool, true));
     for t in crate::spec::INT_TYS {
-        decls.push(d(&format!("RET:{}?", t.rust().to_uppercase()), &[], R::Int(t), false));
+        decls.push(d(&format!("RET:{}?", ty_name(t)), &[], R::Int(t), false));
     }
-    decls.push(d("RET:F32?", &[], R::F32, false));
-    decls.push(d("RET:F64?", &[], R::F64, true));
+    decls.push(d("RET:FSINgle?", &[], R::F32, false));
+    decls.push(d("RET:FDOUble?", &[], R::F64, true));
     decls.push(d("RET:BOOL?", &[], R::Bool, false));
     decls.push(d("RET:STR?", &[], R::Str, false));
     decls.push(d("RET:HSTR?", &[], R::HStr, false));
@@ -109,9 +105,9 @@ pub fn ty() -> Spec {
     decls.push(d("RET:ARB?", &[], R::Arb, false));
     decls.push(d("RET:CHARS?", &[], R::Chars, false));
     decls.push(d("RET:ERR?", &[], R::Err, false));
-    decls.push(d("RET:T2?", &[], R::Tup(vec![R::Int(U8), R::Str]), false));
-    decls.push(d("RET:T3?", &[], R::Tup(vec![R::Int(I64), R::F64, R::Bool]), false));
-    decls.push(d("RET:T4?", &[], R::Tup(vec![R::Chars, R::Arb, R::Str, R::Int(I8)]), true));
+    decls.push(d("RET:TTWO?", &[], R::Tup(vec![R::Int(U8), R::Str]), false));
+    decls.push(d("RET:TTHRee?", &[], R::Tup(vec![R::Int(I64), R::F64, R::Bool]), false));
+    decls.push(d("RET:TFOUr?", &[], R::Tup(vec![R::Chars, R::Arb, R::Str, R::Int(I8)]), true));
     decls.push(d("RET:HVI?", &[], R::HVec(Box::new(R::Int(I32))), false));
     decls.push(d("RET:HVS?", &[], R::HVec(Box::new(R::Str)), false));
     decls.push(d("RET:HVT?", &[], R::HVec(Box::new(R::Tup(vec![R::Int(U8), R::Str]))), false));
@@ -158,7 +154,30 @@ pub fn na() -> Spec {
             d("MEASure:INTs?", &[], R::Slice(Box::new(R::Int(I32))), true),
             d("MEASure:NAMe?", &[], R::HStr, false),
             d("MEASure:ERRor?", &[], R::Err, false),
-            d("PAY:B10", &[Bytes, Bytes, Bytes, Bytes, Bytes, Bytes, Bytes, Bytes, Bytes, Bytes], R::None, false),
+            d("PAY:BTEN", &[Bytes, Bytes, Bytes, Bytes, Bytes, Bytes, Bytes, Bytes, Bytes, Bytes], R::None, false),
         ],
     }
+}
+
+/// Digit-free names for the parameter types, so that the fixtures stay collision-free under any
+/// plausible derivation of short forms.
+pub fn ty_name(t: Ty) -> String {
+    match t {
+        Ty::U8 => "UBYTe",
+        Ty::I8 => "SBYTe",
+        Ty::U16 => "UWORd",
+        Ty::I16 => "SWORd",
+        Ty::U32 => "ULONg",
+        Ty::I32 => "SLONg",
+        Ty::U64 => "UQUAd",
+        Ty::I64 => "SQUAd",
+        Ty::Usize => "USIZe",
+        Ty::Isize => "SSIZe",
+        Ty::F32 => "FSINgle",
+        Ty::F64 => "FDOUble",
+        Ty::Bool => "BOOLean",
+        Ty::Str => "STRing",
+        Ty::Bytes => "BLOCk",
+    }
+    .to_string()
 }
